@@ -85,6 +85,24 @@ func (p popCtx) str() string {
 	return []string{"plain", "a.b", "v-1", "text with { brace", ""}[p.r.Intn(5)]
 }
 
+// a value-or-reference, in either of its two YAML forms (the reference form sets unexported state)
+func (p popCtx) valOrRef() *pipeline.ValOrRef {
+	var v pipeline.ValOrRef
+	src := "immediate-" + p.str()
+	if p.r.Intn(2) == 0 {
+		src = "{ref: cfg.items}"
+		if p.tmpl {
+			src = "{ref: \"{{ .x }}\"}"
+		}
+	} else if p.tmpl {
+		src = "\"{{ .x }}\""
+	}
+	if err := yaml.Unmarshal([]byte(src), &v); err != nil {
+		return &pipeline.ValOrRef{Val: p.str()}
+	}
+	return &v
+}
+
 func (p popCtx) actionSpec() pipeline.ActionSpec {
 	as := pipeline.ActionSpec{}
 	as.Name = "inner"
@@ -147,9 +165,9 @@ func (p popCtx) fill(f reflect.Value) bool {
 			_ = yaml.Unmarshal([]byte("{a: [1, x]}"), &av)
 			f.Set(reflect.ValueOf(&av))
 		case reflect.TypeOf(&pipeline.ValOrRef{}):
-			f.Set(reflect.ValueOf(&pipeline.ValOrRef{Val: p.str()}))
+			f.Set(reflect.ValueOf(p.valOrRef()))
 		case reflect.TypeOf(&pipeline.ValOrRefSlice{}):
-			s := pipeline.ValOrRefSlice{&pipeline.ValOrRef{Val: p.str()}, &pipeline.ValOrRef{Val: "second"}}
+			s := pipeline.ValOrRefSlice{p.valOrRef(), &pipeline.ValOrRef{Val: "second"}, p.valOrRef()}
 			f.Set(reflect.ValueOf(&s))
 		default:
 			n := reflect.New(f.Type().Elem())
